@@ -34,6 +34,10 @@ ClausesC01(r) ==
                  Cl("slim-native-slim-identity", r.sns = r.slim),
                  Cl("native-slim-native-zeroes-masked", r.nsn = ns),
                  Cl("payload-independent", r.payload_ok),
+                 \* an object derived by arithmetic (obj + K, K + obj) reports the same two forms: masked positions of its
+                 \* native form are exactly zero even when the buffer it was derived from is stored native
+                 Cl("derived-native-is-scatter-with-zeros", r.d_native_add = ns /\ r.d_native_radd = ns),
+                 Cl("derived-slim-is-row-major-gather", r.d_slim_add = ss /\ r.d_slim_radd = ss),
                  \* masking the object further / rebuilding from its native form leaves what it reports unchanged
                  Cl("forms-unchanged-by-deriving-a-child", r.parent_ok) >>
       [] r.api = "structure1d" ->
@@ -74,7 +78,8 @@ ClausesC10(r) ==
     CASE r.api = "sets" ->
            LET E == PairSet(r.edge_native)
                B == PairSet(r.border_native)
-           IN << Cl("edge-contains-every-pixel-with-masked-neighbour", EdgeMust(u, r.h, r.w) \subseteq E),
+           IN << Cl("views-raise-no-exception", r.raised = << >>),
+                 Cl("edge-contains-every-pixel-with-masked-neighbour", EdgeMust(u, r.h, r.w) \subseteq E),
                  Cl("edge-has-no-fully-surrounded-pixel", E \subseteq EdgeMay(u, r.h, r.w)),
                  Cl("edge-slim-native-agree", SlimConsistent(r.edge_slim, r.edge_native, u, r.h, r.w)),
                  Cl("edge-mask-view", ToSet(r.edge_mask) = SetLin(E, r.w)),
@@ -92,7 +97,8 @@ ClausesC10(r) ==
       [] r.api = "edge_buffed" ->
            \* derive_mask.edge_buffed: the mask with every cell within one pixel of an unmasked cell
            \* unmasked as well (clipped to the frame)
-           << Cl("edge-buffed", ToSet(r.out) = SetLin(Buffed(u, r.h, r.w, 1), r.w)) >>
+           << Cl("views-raise-no-exception", r.raised = << >>),
+              Cl("edge-buffed", ToSet(r.out) = SetLin(Buffed(u, r.h, r.w, 1), r.w)) >>
       [] r.api = "from_pixel_coordinates" ->
            \* (beyond the listed property) a mask built from pixel coordinates unmasks exactly those pixels, buffed by `b`
            \* in all eight directions and clipped to the frame; with invert the complementary mask
